@@ -13,6 +13,39 @@ import (
 	"golang.org/x/tools/go/ssa"
 )
 
+// evalClause evaluates a contract clause; a clause that cannot be evaluated in the current
+// code (e.g. it names a local that no longer exists) becomes the unprovable goal `false`, so
+// that it is reported for that clause alone (fail closed) and the rest is still analysed.
+func (x *fnCtx) evalClause(env *specEnv, e *SExpr, what string) (t *Term) {
+	defer func() {
+		if r := recover(); r != nil {
+			if ee, ok := r.(engineError); ok && strings.Contains(ee.msg, "spec:") {
+				x.eng.logAbs("%s: clause not evaluable, reported as failed (contract-target-missing): %s: %s", x.short, what, ee.msg)
+				t = Fresh("unevaluable", SBool)
+				env.st.assume(Not(t))
+				return
+			}
+			panic(r)
+		}
+	}()
+	return x.evalSpecBool(env, e)
+}
+
+// tryEval evaluates a boolean clause; ok is false when it cannot be evaluated here.
+func (x *fnCtx) tryEval(env *specEnv, e *SExpr) (t *Term, ok bool) {
+	defer func() {
+		if r := recover(); r != nil {
+			if ee, isE := r.(engineError); isE && strings.Contains(ee.msg, "spec:") {
+				x.eng.logAbs("%s: clause not evaluable: %s", x.short, ee.msg)
+				t, ok = nil, false
+				return
+			}
+			panic(r)
+		}
+	}()
+	return x.evalSpecBool(env, e), true
+}
+
 func (x *fnCtx) evalSpecBool(env *specEnv, e *SExpr) *Term {
 	v := x.evalSpec(env, e)
 	if v.Tup != nil || len(v.L) != 1 || v.L[0].Sort != SBool {
@@ -694,7 +727,19 @@ func (x *fnCtx) evalSpecCall(env *specEnv, e *SExpr) *Val {
 			}
 			return scalar(tBool, Forall([]*Term{bv}, body, pats...))
 		}
-		return scalar(tBool, Exists([]*Term{bv}, body))
+		{
+			pats := autoPatterns(bv, body)
+			if len(pats) == 0 && srt == SInt {
+				if off := findOffsetIndex(bv, body); off != nil {
+					j := BVar(args[0].Op+"j", SInt)
+					body2 := Subst(body, map[*Term]*Term{bv: Sub(j, off)})
+					if p2 := autoPatterns(j, body2); len(p2) > 0 {
+						return scalar(tBool, Exists([]*Term{j}, body2, p2...))
+					}
+				}
+			}
+			return scalar(tBool, Exists([]*Term{bv}, body, pats...))
+		}
 	case "has":
 		m, k := ev(0), ev(1)
 		return scalar(tBool, And(Ne(m.L[0], IntLit(0)), Select(x.specMapDom(env, m), mapKey(k))))
